@@ -10,8 +10,9 @@ pub struct EvalModel {
     pub magic: u64,
     pub calls: usize,
     pub pre: Option<expr::Value>,
+    pub pre2: Option<expr::Value>,
 }
-pub static mut EV: EvalModel = EvalModel { magic: 0x4556_5eed_c0de_0003, calls: 0, pre: None };
+pub static mut EV: EvalModel = EvalModel { magic: 0x4556_5eed_c0de_0003, calls: 0, pre: None, pre2: None };
 
 /// Contract stub for asm::resolver::eval::eval: hands out the value the harness prepared
 /// (`pre_*`), or - when nothing was prepared - records an error and returns Err.
@@ -24,7 +25,8 @@ pub static mut EV: EvalModel = EvalModel { magic: 0x4556_5eed_c0de_0003, calls: 
 pub fn st_eval_pre(report: &mut diagn::Report, _opts: &asm::AssemblyOptions, _fs: &mut dyn util::FileServer, _decls: &asm::ItemDecls, _defs: &asm::ItemDefs, _ctx: &asm::ResolverContext, _ectx: &mut expr::EvalContext, _e: &expr::Expr) -> Result<expr::Value, ()> {
     unsafe {
         EV.calls += 1;
-        match EV.pre.take() {
+        let next = if EV.pre.is_some() { EV.pre.take() } else { EV.pre2.take() };
+        match next {
             Some(v) => Ok(v),
             None => {
                 report.error("eval failed");
@@ -44,6 +46,13 @@ pub fn pre_failed() {
 }
 pub fn pre_bool(b: bool) {
     unsafe { EV.pre = Some(expr::Value::Bool(b)); }
+}
+/// second value of the queue (handed out after the first)
+pub fn pre2_int(v: i64, size: Option<usize>) {
+    unsafe { EV.pre2 = Some(expr::Value::make_integer(BigInt::new(v, size))); }
+}
+pub fn pre2_failed() {
+    unsafe { EV.pre2 = Some(expr::Value::FailedConstraint(diagn::Message::error("constraint"))); }
 }
 pub fn pre_err() {
     unsafe { EV.pre = None; }
@@ -252,4 +261,54 @@ pub fn addr_step(kind: u8, v: i64, start: i64, unit: usize, size: Option<usize>,
     if out.ok && !out.resolved && last { assert!(out.errs > 0, "final pass unresolved without a diagnostic"); }
     std::mem::forget(decls); std::mem::forget(defs); std::mem::forget(report); std::mem::forget(ast);
     (out, stored)
+}
+
+
+// ---------------------------------------------------------------- instruction step
+
+/// Builds the definitions for one instruction with `k` argument-less matches (rules 0..k of one
+/// rule block) whose productions are evaluated by the stubbed evaluator.
+pub fn instr_defs(k: usize, prev: i64, prev_size: usize, statically_known: bool) -> (asm::ItemDecls, asm::ItemDefs) {
+    let mut decls = empty_decls();
+    decls.ruledefs.verif_push_decl("r", 0, util::SymbolContext::new_global());
+    let mut defs = asm::defs::init();
+    defs.bankdefs.define(util::ItemRef::new(0), bank(0, 8, 0, None, Some(0), false));
+    let mut rules = Vec::new();
+    let mut matches = asm::InstructionMatches::new();
+    let mut i = 0;
+    while i < 2 {
+        if i < k {
+            rules.push(asm::Rule { pattern_span: sp(), pattern: Vec::new(), exact_part_count: 0, parameters: Vec::new(), expr: expr::Expr::Literal(sp(), expr::Value::Bool(false)) });
+            matches.push(asm::InstructionMatch { ruledef_ref: util::ItemRef::new(0), rule_ref: util::ItemRef::new(i), args: Vec::new(), exact_part_count: 0, encoding_statically_known: statically_known, encoding_size: 0, encoding: asm::InstructionMatchResolution::Unresolved });
+        }
+        i += 1;
+    }
+    defs.ruledefs.define(util::ItemRef::new(0), asm::Ruledef { item_ref: util::ItemRef::new(0), is_subruledef: false, rules });
+    defs.instructions.define(util::ItemRef::new(0), asm::Instruction { item_ref: util::ItemRef::new(0), matches, encoding_statically_known: statically_known, encoding: BigInt::new(prev, Some(prev_size)), resolved: false });
+    (decls, defs)
+}
+
+pub struct InstrOut {
+    pub ok: bool,
+    pub resolved: bool,
+    pub errs: usize,
+    pub stored: i64,
+    pub stored_size: Option<usize>,
+    pub flag: bool,
+}
+pub fn instr_step(decls: &asm::ItemDecls, defs: &mut asm::ItemDefs, first: bool, last: bool, optimize: bool) -> InstrOut {
+    reset_report_model();
+    let mut report = diagn::Report::new();
+    let ast = asm::AstInstruction { span: sp(), src: String::from("i"), item_ref: Some(util::ItemRef::new(0)) };
+    let bd = asm::resolver::BankData { cur_position: 0 };
+    let ctx = rctx(&bd, 0, first, last);
+    let mut opts = asm::AssemblyOptions::new();
+    opts.optimize_statically_known = optimize;
+    let mut fs = NoFs;
+    let r = asm::resolver::verif_hooks::resolve_instruction(&mut report, &opts, &mut fs, &ast, decls, defs, &ctx);
+    let o = finish(&r, &report);
+    let ins = defs.instructions.get(util::ItemRef::new(0));
+    let out = InstrOut { ok: o.ok, resolved: o.resolved, errs: o.errs, stored: ins.encoding.maybe_into::<i64>().unwrap(), stored_size: ins.encoding.size, flag: ins.resolved };
+    std::mem::forget(report); std::mem::forget(ast);
+    out
 }
